@@ -216,13 +216,24 @@ pub fn payload(n: u64) -> event::Info {
 }
 
 pub fn payload_id(i: &event::Info) -> Value {
+    if let Some(n) = i.downcast_ref::<u32>() {
+        return json!(n);
+    }
     if let Some(s) = i.downcast_ref::<String>() {
+        if s.starts_with("failed to initialize") {
+            if let Some(n) = s.split("werr#").nth(1).and_then(|n| n.parse::<u64>().ok()) {
+                return json!(2000 + n);
+            }
+        }
         if let Some(n) = s.strip_prefix("panic#").and_then(|n| n.parse::<u64>().ok()) {
             return json!(n);
         }
         return json!(s);
     }
     if let Some(s) = i.downcast_ref::<&str>() {
+        if let Some(n) = s.strip_prefix("panic#").and_then(|n| n.parse::<u64>().ok()) {
+            return json!(n);
+        }
         return json!(s);
     }
     json!("<opaque>")
